@@ -360,7 +360,7 @@ def install(M):
             if attr == 'ip':
                 return NetIP(base.version, base.value)
             if attr == 'info':
-                return it.opaque('IPAddress.info')
+                return {('IPv4' if base.version == 4 else 'IPv6'): [{'prefix': 'modelled'}]}
             if attr == 'network':
                 raise Unsupported('IPNetwork.network')
             if attr in ('is_unicast', 'is_multicast', 'words', 'bits', 'format'):
